@@ -40,8 +40,9 @@ CLAIMED = {
           "the model is hand written: its tie to conn.go is the conv correspondence; goroutine timing of chunked deliveries is covered by C04/C20"),
  "C04": C("Strict RFC 5321 reply recogniser + enhanced-code class rule + own-verdict rule (DATA and chunked) evaluated on every recorded "
           "conversation incl. forced delivery orders (sched probe); L3 theorem own_verdict_all_schedules proved for every schedule of the "
-          "chunked-delivery model.",
-          "DESIGN.md 7 C04", "Lean 4 proof of the L3 interleaving model + trace monitors + differential correspondence (conv, sched probes)",
+          "chunked-delivery model; C04_reply_syntax: every one-line reply the model's renderer writes (any code, enhanced code, text) is accepted by the strict "
+          "recogniser as exactly one reply with that code, and the enhanced code it reads off the line is the rendered one (class.0.0 of the reply's class when unset).",
+          "DESIGN.md 7 C04", "Lean 4 proof of the L3 interleaving model and of the renderer against the recogniser + trace monitors + differential correspondence (conv, sched probes)",
           "reply count/order per command is tied by the correspondence with the model, not yet by a theorem; echoed client octets in reply text are a design-phase finding not yet judged"),
  "C05": C("Proved on the wire model (segments below bufio below the limiter): C05_refused_chunk_discarded (a refused BDAT with its n declared "
           "octets on a live connection: exactly those n octets are skipped - the next command line starts at octet n of the stream - and the line "
@@ -53,13 +54,17 @@ CLAIMED = {
           "DESIGN.md 0.3 + 7 C05", "Lean 4 proof (octet-count framing on the wire model) + monitors + differential correspondence (conv probe)",
           "that the octets handed to the backend are the payloads' concatenation with EOF only after LAST, and one reply per BDAT, are decided by the monitors and the correspondence (and one reply per command by C03's theorem on the model); one known finding (line limiter below bufio)"),
  "C06": C("C06_bound_data (never more than N octets for ANY input), C06_oversize_never_complete, C06_transparent proved for every stream and "
-          "schedule; BDAT accounting and SIZE parameter judged on conversations around the limit.",
-          "DESIGN.md 7 C06", "Lean 4 proof (DATA reader) + monitors and differential correspondence (dr, conv probes)",
-          "BDAT accounting (bytesReceived invariant) tied by the correspondence, not yet by a theorem"),
+          "schedule; on the server model C06_chunk_over_limit (a BDAT command that would take the message over the limit hands no delivery a single octet, records no "
+          "end of file and leaves no transaction behind) and C06_declared_size_refused (SIZE above the limit is refused by the parameter switch, before the backend); "
+          "BDAT accounting across chunks and the 'fits => no 552' / '552 => discarded' rules judged on conversations around the limit.",
+          "DESIGN.md 7 C06", "Lean 4 proof (DATA reader, server model) + monitors and differential correspondence (dr, conv probes)",
+          "the bytesReceived accounting across several chunks is tied by the correspondence and the monitors, not by a theorem"),
  "C07": C("C07_data_cut / C07_eof_complete proved: for every cut point, limit and schedule no read reports EOF unless a complete terminated "
-          "message was consumed; every cut offset of 6 conversations (DATA, BDAT, LMTP) replayed on the real server with propagating backends.",
-          "DESIGN.md 7 C07", "Lean 4 proof (DATA reader) + every-cut-point correspondence (dr, conv probes)",
-          "BDAT (pipe closed cleanly only after a LAST chunk copied in full) tied by the correspondence, not yet by a theorem"),
+          "message was consumed; chunked transfers on the server model: C07_bdat_eof_only_after_last (an accepted BDAT records a clean end of file only if it carried LAST and "
+          "its copy was complete), C07_abandoned_is_reset / C07_reset_close_no_eof (reset() and Close() end a running transfer with ErrDataReset, never EOF); every cut "
+          "offset of 6 conversations (DATA, BDAT, LMTP) replayed on the real server with propagating backends.",
+          "DESIGN.md 7 C07", "Lean 4 proof (DATA reader, chunked transfers on the server model) + every-cut-point correspondence (dr, conv probes)",
+          "the fuel of the model's chunk copy is assumed adequate in C07_bdat_eof_only_after_last (adequacy is proved for the DATA path and for C05's framing on live wires)"),
  "C08": C("Proved: C08_lifecycle / C08_lifecycle_visible / C08_ends_closed - on every connection of the server model (every input, every "
           "point at which the input ends, every backend script and configuration) each session is logged out exactly once, nothing is called "
           "on it afterwards, the connection is closed exactly once, nothing is written or called after that, and at the end nobody is logged "
@@ -95,9 +100,9 @@ CLAIMED = {
           "status scripts, panics, DATA and BDAT, both backend kinds; compared with the model.",
           "DESIGN.md 0.3 + 7 C13", "Lean 4 proof (channel mechanism = attribution spec = model bookkeeping) + judge + differential correspondence (conv probe)",
           "the channel model is a model of Go channels (FIFO, non-blocking send with default); goroutine timing of the delivery is decided by the sched probe; out-of-contract status calls on the DATA path are schedule dependent and not generated"),
- "C14": C("Proved: C14_xtext_roundtrip (decodeXtext (encodeXtext s) = s for every string over 7-bit ASCII) and C14_monitor_model. All five codec functions compared with the Lean model on every Unicode scalar value (thorough) and short strings over the significant alphabet; round-trip laws judged on the implementation's own encode/decode pairs; e2e probe: the real client talks to the real server and the options the backend observed are compared field by field with those given (every string option from the alphabet, option subsets, RRVS instants in several zones).",
-          'DESIGN.md 0.3 + 7 C14', 'Lean 4 proof (xtext) + executable codec model + law monitors + differential correspondence (xtext, rt, e2e probes)',
-          'utf-8-addr-xtext / unitext round trips are decided by exhaustive enumeration of scalar values against the model and the law monitor, not yet by a theorem'),
+ "C14": C("Proved: C14_xtext_roundtrip (decodeXtext (encodeXtext s) = s for every string over 7-bit ASCII) and C14_monitor_model; the parameter trip on the models (Proofs/ParamTrip.lean): C14_tokenise (strings.Fields on the client's parameter string), C14_params_parse (parseArgs gives back exactly the rendered parameter list), C14_mail_options_trip (every combination of BODY, SIZE, REQUIRETLS, SMTPUTF8, RET, printable-ASCII ENVID, AUTH <> / dot-string mailbox written by the client model is decoded by the server model's switch into exactly the same options), C14_rcpt_options_trip (NOTIFY sets, rfc822 ORCPT). All five codec functions compared with the Lean model on every Unicode scalar value (thorough) and short strings over the significant alphabet; round-trip laws judged on the implementation's own encode/decode pairs; e2e probe: the real client talks to the real server and the options the backend observed are compared field by field with those given (every string option from the alphabet, option subsets, RRVS instants in several zones).",
+          'DESIGN.md 0.3 + 7 C14', 'Lean 4 proof (xtext, parameter trip client model -> server model) + executable codec model + law monitors + differential correspondence (xtext, rt, e2e probes)',
+          'utf-8-addr-xtext / unitext round trips, RRVS times and non-ASCII values are decided by exhaustive enumeration of scalar values against the model and the law monitors, not by a theorem'),
  "C15": C("Proved for EVERY argument value (hostile ones included): C15_mail_one_line and C15_rcpt_one_line (the line built from sender/recipient, "
           "every MailOptions/RcptOptions field, through all three encoders, the decimal and RFC 3339 renderers, contains neither CR nor LF), "
           "C15_hostile_address_refused (an address with CR/LF yields no line at all), C15_no_ext_no_params (nothing offered => nothing but the "
